@@ -209,7 +209,8 @@ def oracleBeta (toks : List String) (obs : List String) : String :=
       else if betaOk render jk ops got ref then
         let removes := (ops.filter fun | .remove _ _ => true | _ => false).length
         joinSp (["ok", "beta"] ++ (if got.any (!·.isEmpty) then ["b_hit", "nontrivial"] else [])
-          ++ (if removes > 0 then ["b_remove"] else []) ++ (if got.any (·.length ≥ 2) then ["b_multi"] else []))
+          ++ (if removes > 0 then ["b_remove"] else []) ++ (if got.any (·.length ≥ 2) then ["b_multi"] else [])
+          ++ (if got.any (·.length > 32) then ["b_hot_gt32"] else []))
       else "fail beta-vs-plain"
 
 /-! ### M: memo -/
@@ -223,6 +224,22 @@ partial def decNode : List String → Option (Node DFloat × List String)
     let lit ← hexString? lit
     let (v, r) ← decVal r
     pure (.alpha φ ne lit v, r)
+  | "co" :: φ :: lit :: r => do
+    let lit ← hexString? lit
+    let (v, r) ← decVal r
+    pure (.contains φ lit v, r)
+  | "cnt" :: φ :: op :: k :: r => do
+    let k ← k.toInt?
+    if op = "any" then pure (.count φ none, r) else
+    let op ← (match op with
+      | "gt" => some CmpOp.gt | "lt" => some .lt | "ge" => some .ge | "le" => some .le
+      | "eq" => some .eq | "ne" => some .ne | "xx" => some .other | _ => none)
+    pure (.count φ (some (op, k)), r)
+  | "mf" :: φ :: op :: r => do
+    let op ← (match op with
+      | "empty" => some MultiOp.empty | "nonempty" => some .notEmpty | "first" => some .first
+      | "last" => some .last | "collect" => some .collect | _ => none)
+    pure (.multi φ op, r)
   | _ => none
 
 abbrev MN := String × Node DFloat
@@ -277,8 +294,15 @@ def oracleMemo (toks : List String) (obs : List String) : String :=
     else if memoOk d m then
       let hits := (parseNats? h).getD []
       let anyHit := hits.any (· > 0)
+      let nested := ops.any fun
+        | .eval _ f => f.any (fun kv => match kv.2 with | .arr xs => xs.any (fun x => match x with | .arr _ => true | _ => false) | _ => false)
+        | .clear => false
+      let multi := ops.any fun
+        | .eval n _ => (n.1.splitOn ",").any (fun t => t = "cnt" || t = "mf" || t = "co")
+        | .clear => false
       joinSp (["ok", "memo"] ++ (if anyHit then ["m_hit", "nontrivial"] else []) ++ (if d.any id then ["m_true"] else [])
-        ++ (if d.any (!·) then ["m_false"] else []))
+        ++ (if d.any (!·) then ["m_false"] else []) ++ (if nested then ["m_nested_array"] else [])
+        ++ (if multi then ["m_multifield_or_contains"] else []))
     else "fail memo-vs-direct"
   | _, _, _, _ => "bad-input"
 
